@@ -37,7 +37,7 @@ def scaled(x):
 
 # ---------------------------------------------------------------- rendering abstract cases
 K_NAMES = [b"alg:iter", b"iterlim", b"maxit", b"alg:mode", b"mode", b"tol:gap", b"gap", b"mipgap",
-           b"lim:3:wt", b"lim_ab_wt", b"lim:x:wt"]
+           b"lim:3:wt", b"limit_ab_w", b"lim:x:wt", b"wt7", b"wtab"]
 S_NAMES = [b"tech:log", b"logfile", b"log_file"]
 F_NAMES = [b"tech:quiet", b"quiet", b"silent"]
 U_NAMES = [b"foo", b"iterlimx", b"alg:", b"xgap", b"lim:wt", b"q", b"tech:logg", b"lim:*:wt", b"*"]
@@ -48,7 +48,7 @@ JUNK = [b"\xe9\xff", b"\x01\x02", b"%$#", b"y" * 300, b"\x80", b"\xc3\xa9t\xc3\x
 
 
 def vary_case(name, rnd):
-    if b"*" in name or name.startswith(b"lim"):
+    if b"*" in name or name.startswith(b"lim") or name.startswith(b"wt"):
         return name                       # wildcard keys are matched case-sensitively
     r = rnd.random()
     if r < 0.55:
@@ -79,7 +79,7 @@ def render_cls(seq, rnd):
 
 OPT_NAMES = {"int": [b"alg:iter", b"iterlim", b"maxit"], "int2": [b"alg:mode", b"mode"],
              "dbl": [b"tol:gap", b"gap", b"mipgap"], "str": S_NAMES, "flag": F_NAMES,
-             "wild": [b"lim:3:wt", b"lim_3_wt"]}
+             "wild": [b"lim:3:wt", b"limit_3_w", b"wt3"]}
 VALUES = {("int", 1): [b"5", b"+5", b"005"], ("int", 2): [b"-12", b"010"], ("int2", 1): [b"5", b"+5"], ("int2", 2): [b"-12", b"0"],
           ("dbl", 1): [b"2.5", b"2.50", b"+2.5"], ("dbl", 2): [b"-0.125", b"-.125", b"0.1"],
           ("str", 1): [b"abc", b"'abc'", b'"abc"'], ("str", 2): [b"'a b'", b'"x=y z"', b"p/q.log", b"''"],
